@@ -403,9 +403,35 @@ def cli_family(ctx):
         want = 3000
         keyed = sorted(scen, key=lambda j: hashlib.sha256(("%d|%s" % (ctx.seed, j["id"])).encode()).hexdigest())
         # every scenario kind is represented: all format-all / stdin / noinput shapes, a slice of the file lists
-        special = [j for j in keyed if j["inv"]["kind"] != "list"]
-        lists = [j for j in keyed if j["inv"]["kind"] == "list"]
-        scen = special[:1500] + lists[:want - min(1500, len(special))]
+        # stratified: every abstract shape of a run is represented — (kind, mode, root, class of each named argument /
+        # classes of the files by position relative to the walk) — with up to `per` concrete scenarios each, chosen by the seed
+        def shape(j):
+            inv, fs0 = j["inv"], j["fs0"]
+            if inv["kind"] == "list":
+                cl = tuple(fs0[a]["cls"] if a in fs0 else ("D" if a == "w/x.typ" else "missing") for a in inv["args"])
+                return ("list", inv["mode"], cl, len(set(inv["args"])) < len(inv["args"]))
+            if inv["kind"] == "all":
+                rd = {"none": "w", ".": "w", "s": "w/s", ".r": "w/.r", "x.typ": "w/x.typ"}[inv["root"]["arg"]]
+
+                def pos(slot):
+                    if not slot.startswith(rd + "/"):
+                        return "outside"
+                    comps = slot[len(rd) + 1:].split("/")
+                    return "hidden" if any(c.startswith(".") for c in comps) else ("eligible" if slot.endswith(".typ") else "other-ext")
+                present = tuple(sorted((pos(k), v["cls"]) for k, v in fs0.items() if v["cls"] != "A"))
+                return ("all", inv["mode"], inv["root"]["arg"], present)
+            return (inv["kind"], inv["mode"], inv.get("cls"))
+        groups = {}
+        for j in keyed:
+            groups.setdefault(shape(j), []).append(j)
+        per = 6
+        scen = [j for g in groups.values() for j in g[:per]]
+        if len(scen) > 2 * want:
+            # too many shapes for a quick run: all shapes with a symbolic link, then a seed-selected part of the others
+            rare = [j for j in scen if any(v["cls"] == "L" for v in j["fs0"].values())]
+            rest = [j for j in scen if not any(v["cls"] == "L" for v in j["fs0"].values())]
+            scen = rare + rest[:2 * want - len(rare)]
+        ctx.extra["scenario_shapes"] = len(groups)
     sp = os.path.join(ctx.work, "scenarios.ndjson")
     with open(sp, "w") as f:
         for j in scen:
